@@ -11,7 +11,7 @@
 // eviction iterate score buckets, and inside one bucket a Go map. The alphabet therefore
 // gives every sender its own gas-price class, chosen so that the score ranges of the
 // senders are pairwise disjoint whatever the number of pooled transactions (a: score 0,
-// c: 1..3, b: 14..33). Then every bucket holds at most one sender and the iteration order
+// c: 1..2, b: 12..33 for up to 6 txs). Then every bucket holds at most one sender and the iteration order
 // (ascending score for eviction, descending for selection) is a function of the state. The
 // harness verifies this in every reached state and aborts (exit 2) if two senders ever
 // share a bucket, so a run that finishes was deterministic.
@@ -20,13 +20,9 @@ package main
 import (
 	"encoding/json"
 	"fmt"
-	"os"
-	"runtime/pprof"
 	"sort"
-	"strconv"
 	"strings"
 	"sync"
-	"time"
 
 	"github.com/ElrondNetwork/elrond-go/data/transaction"
 	"github.com/ElrondNetwork/elrond-go/storage/txcache"
@@ -60,8 +56,8 @@ const (
 // the fee score), so the score of a sender is a function of (class, number of txs) only.
 var basePrice = map[string]uint64{
 	"a": 0,                             // prices 1,2: fee score 0 => score 0
-	"c": 417 << gasPriceShiftInSandbox, // ~0.44 x min price => score 1..3
-	"b": 953 << gasPriceShiftInSandbox, // ~1.0 x min price => score 14..33
+	"c": 417 << gasPriceShiftInSandbox, // ~0.44 x min price => score 1..2
+	"b": 953 << gasPriceShiftInSandbox, // ~1.0 x min price => score 12..33
 }
 
 type txDesc struct {
@@ -237,8 +233,10 @@ type inst struct {
 	lim    limits
 	v      *view // cached view of the current state
 	hist   []string
-	nt     string // non-trivial key of the last step
-	out    string // outcome of the last step
+	pend   map[string]int64 // counters of the last step, committed once per explored transition
+	pendK  *[2]string       // known-class (sig, detail) of the last step, committed likewise
+	nt     string           // non-trivial key of the last step
+	out    string           // outcome of the last step
 }
 
 type world struct {
@@ -255,6 +253,8 @@ type world struct {
 type knownSeen struct {
 	count  int64
 	hist   []string
+	pend   map[string]int64 // counters of the last step, committed once per explored transition
+	pendK  *[2]string       // known-class (sig, detail) of the last step, committed likewise
 	detail string
 }
 
@@ -424,7 +424,7 @@ func js(v interface{}) string {
 func (v *view) describe() map[string]interface{} {
 	lists := map[string]interface{}{}
 	for _, x := range v.senders {
-		d := map[string]interface{}{"txs": x.hashes, "bytes": x.bytes}
+		d := map[string]interface{}{"txs": x.hashes, "bytes": x.bytes, "score": x.score}
 		if x.known {
 			d["accountNonce"] = x.acctNonce
 		}
@@ -642,7 +642,7 @@ func (s *inst) checkSelection(pre *view, n, batch int, result []*txcache.Wrapped
 // ---- step ---------------------------------------------------------------------------------
 
 func (s *inst) do(o opDesc) (sig, detail string) {
-	s.nt, s.out = "", ""
+	s.nt, s.out, s.pend, s.pendK = "", "", map[string]int64{}, nil
 	s.hist = append(s.hist, o.name)
 	c25 := s.w.prop == "C25"
 	if o.kind == kCfg {
@@ -678,14 +678,14 @@ func (s *inst) do(o opDesc) (sig, detail string) {
 					kind = "evict"
 				}
 				s.nt = kind + "|" + o.name + "|" + strings.Join(gone, ",")
-				s.w.c.Count("steps_with_"+kind, 1)
+				s.pend["steps_with_"+kind]++
 			}
 			s.out = fmt.Sprintf("add %v %v %d %d %d", ok, added, post.countTx, post.numBytes, post.countSenders)
 			if added { // a rejected duplicate is not an addition
 				sg, d := s.checkSenderLimits(pre, o.tx)
 				if sg == sigKnownOneEviction {
 					// known class: reported, but the state is still explored (all other oracles stay active)
-					s.w.noteKnown(sg, d, s.hist)
+					s.pendK = &[2]string{sg, d}
 				} else if sg != "" {
 					return sg, d
 				}
@@ -709,7 +709,7 @@ func (s *inst) do(o opDesc) (sig, detail string) {
 		if c25 {
 			if len(post.allListed()) < len(pre.allListed()) {
 				s.nt = "sweep|" + o.name + "|" + strings.Join(pre.index, ",") + ">" + strings.Join(post.index, ",")
-				s.w.c.Count("steps_with_sweep", 1)
+				s.pend["steps_with_sweep"]++
 			}
 			s.out = fmt.Sprintf("select %d %d %d %d", len(result), post.countTx, post.numBytes, post.countSenders)
 		} else {
@@ -724,13 +724,13 @@ func (s *inst) do(o opDesc) (sig, detail string) {
 			if initial || middle {
 				s.nt = o.name + "|" + preKey
 				if initial {
-					s.w.c.Count("selections_with_initial_gap", 1)
+					s.pend["selections_with_initial_gap"]++
 				}
 				if middle {
-					s.w.c.Count("selections_with_middle_gap", 1)
+					s.pend["selections_with_middle_gap"]++
 				}
 				if grace {
-					s.w.c.Count("selections_with_sender_in_grace_period", 1)
+					s.pend["selections_with_sender_in_grace_period"]++
 				}
 			}
 			hs := make([]string, len(result))
@@ -740,7 +740,7 @@ func (s *inst) do(o opDesc) (sig, detail string) {
 				}
 			}
 			s.out = o.name + ">" + strings.Join(hs, ",")
-			s.w.c.Count("selections_checked", 1)
+			s.pend["selections_checked"]++
 			if sg, d := s.checkSelection(pre, o.n, o.b, result); sg != "" {
 				return sg, d
 			}
@@ -760,6 +760,19 @@ func (s *inst) keyOf(v *view) string {
 		fmt.Fprintf(&b, "%s[%d,%v,%d]%s;", x.name, x.acctNonce, x.known, x.failed, strings.Join(x.hashes, ","))
 	}
 	return b.String()
+}
+
+// commit publishes the counters and known-class report of the last step. The BFS engine
+// re-executes history prefixes on fresh instances, so this is called once per explored
+// transition (from the Nontrivial callback) and not from do.
+func (s *inst) commit() {
+	for k, n := range s.pend {
+		s.w.c.Count(k, n)
+	}
+	if s.pendK != nil {
+		s.w.noteKnown(s.pendK[0], s.pendK[1], s.hist)
+	}
+	s.pend, s.pendK = nil, nil
 }
 
 func (s *inst) check() (string, string) {
@@ -887,11 +900,7 @@ func phasesFor(c *mc.Ctx) []alphabet {
 	case c.Quick():
 		phases = []alphabet{base(6, small26...), tiny(10)}
 	default:
-		phases = []alphabet{base(8, small26...), base(5, large26...), tiny(16)}
-	}
-	if v, err := strconv.Atoi(os.Getenv("VERIF_TXC_DEPTH")); err == nil && v > 0 {
-		phases[0].depth = v // development aid: measure other depths (first phase only)
-		phases = phases[:1]
+		phases = []alphabet{base(9, small26...), base(6, large26...), tiny(16)}
 	}
 	return phases
 }
@@ -975,6 +984,7 @@ func runHistory(c *mc.Ctx, w *world, hist []string, verbose bool) {
 			sig, detail = "panic", p
 		}
 		c.Eval(1)
+		s.commit()
 		if s.nt != "" {
 			c.Nontrivial(s.nt)
 		}
@@ -994,11 +1004,6 @@ func runHistory(c *mc.Ctx, w *world, hist []string, verbose bool) {
 // ---- main -------------------------------------------------------------------------------------
 
 func main() {
-	if f := os.Getenv("VERIF_PPROF"); f != "" {
-		fh, _ := os.Create(f)
-		pprof.StartCPUProfile(fh)
-		go func() { time.Sleep(8 * time.Second); pprof.StopCPUProfile(); fh.Close() }()
-	}
 	mc.Main("C25", "model_checking", func(c *mc.Ctx) {
 		if c.Prop != "C25" && c.Prop != "C26" {
 			c.Fatal("this harness serves C25 and C26, not %s", c.Prop)
@@ -1008,7 +1013,7 @@ func main() {
 		w.graceLo, w.graceHi = txcache.VerifGraceBounds()
 		c.Assumptions = []string{
 			"single-threaded histories; selection = doSelectTransactions followed synchronously by doAfterSelection (sweeping), i.e. no operation interleaves between a selection and its sweep",
-			"each sender uses its own gas-price class (a: 1,2; c: 417<<20 +1,+2; b: 953<<20 +1,+2; gas limit 50000, TxGasHandlerMock min price 1e9, divisor 100) so that sender scores never collide (a=0, c in 1..3, b in 14..33): at most one sender per score bucket, hence eviction and selection order are deterministic; verified in every reached state (abort otherwise)",
+			"each sender uses its own gas-price class (a: 1,2; c: 417<<20 +1,+2; b: 953<<20 +1,+2; gas limit 50000, TxGasHandlerMock min price 1e9, divisor 100) so that sender scores never collide (a=0, c in 1..2, b in 12..33): at most one sender per score bucket, hence eviction and selection order are deterministic; verified in every reached state (abort otherwise)",
 			"transaction hash is a function of (sender, nonce, price, size); sizes are the WrappedTransaction.Size values",
 			fmt.Sprintf("configuration: eviction enabled, CountThreshold %d, NumBytesThreshold %d, NumSendersToPreemptivelyEvict %d, per sender %d txs / %d bytes", smallCountThreshold, smallBytesThreshold, smallSendersToEvict, smallPerSenderCount, smallPerSenderBytes),
 		}
@@ -1066,7 +1071,7 @@ func main() {
 				Do:         func(s *inst, op int) (string, string) { return s.do(ops[op]) },
 				Check:      func(s *inst) (string, string) { return s.check() },
 				Key:        func(s *inst) string { return s.key() },
-				Nontrivial: func(s *inst) string { return s.nt },
+				Nontrivial: func(s *inst) string { s.commit(); return s.nt },
 				Outcome:    func(s *inst) string { return s.out },
 			}
 			st := mc.BFS(c, sys, a.depth+1)
